@@ -52,9 +52,9 @@ def run(c):
         c.tlc_model("AdaptersModel", workers=8)                                   # 3x3, every in-row order, every permutation
         c.tlc_model("AdaptersModel", cfg="AdaptersRect.cfg", workers=4)             # 2x3
         if th:
-            # 3x4 with every in-row order on every 3rd pattern; 4x4 (sorted / reversed rows) on every 31st pattern, every 5th permutation
-            c.tlc_model("AdaptersModel", cfg="AdaptersRect.cfg", constants={"R": 3, "C": 4, "SAMPLE": 3}, workers=8, timeout=1500)
-            c.tlc_model("AdaptersModel", constants={"R": 4, "C": 4, "ORD": '"two"', "SAMPLE": 31, "PSTEP": 5}, workers=8, timeout=1500)
+            # 3x4 with every in-row order (274 625 matrices); 4x4 with sorted / reversed rows on every 7th pattern, every 5th permutation
+            c.tlc_model("AdaptersModel", cfg="AdaptersRect.cfg", constants={"R": 3, "C": 4}, workers=8, timeout=1500)
+            c.tlc_model("AdaptersModel", constants={"R": 4, "C": 4, "ORD": '"two"', "SAMPLE": 7, "PSTEP": 5}, workers=8, timeout=1500)
         c.tlc_model("OwnershipModel", constants={"MaxOps": 7 if th else 6}, workers=4)
         m = c.tlc_model("OwnershipModel", cfg="OwnershipLeak.cfg", workers=2, coverage=False)
         leak["model"] = bool(m["violated"])
